@@ -214,6 +214,7 @@ pub fn allowed_features() -> gen::problem::Features {
     allowed.clustering = true; // the oracle judges bookkeeping and the time-independent rules of clustered tours
     allowed.recharges = true;
     allowed.time_dependent = true;
+    allowed.long_tour_focus = true;
     allowed
 }
 
